@@ -331,13 +331,38 @@ func Fqdn(s string) string {
 // CanonicalName returns the domain name in canonical form. A name in canonical
 // form is lowercase and fully qualified. Only US-ASCII letters are affected. See
 // Section 6.2 in RFC 4034.
+//
+// A letter may also be written as a \DDD escape (\065 is an A). Lower-casing the text
+// would take it for three digits and leave an upper case octet in the name, so such
+// an escape is replaced by the lower case letter itself.
 func CanonicalName(s string) string {
-	return strings.Map(func(r rune) rune {
+	s = strings.Map(func(r rune) rune {
 		if r >= 'A' && r <= 'Z' {
 			r += 'a' - 'A'
 		}
 		return r
 	}, Fqdn(s))
+	if strings.IndexByte(s, '\\') < 0 {
+		return s
+	}
+	var sb strings.Builder
+	for i := 0; i < len(s); i++ {
+		switch {
+		case s[i] != '\\' || i+1 == len(s):
+			sb.WriteByte(s[i])
+		case !isDDD(s[i+1:]):
+			sb.WriteString(s[i : i+2])
+			i++
+		default:
+			if c := dddToByte(s[i+1:]) | ('a' - 'A'); 'a' <= c && c <= 'z' {
+				sb.WriteByte(c)
+			} else {
+				sb.WriteString(s[i : i+4])
+			}
+			i += 3
+		}
+	}
+	return sb.String()
 }
 
 // Copied from the official Go code.
